@@ -95,6 +95,15 @@ def impl():
 
 
 def build_ref(ra, t, r=None):
+  x = build_ref_plain(ra, t, r)
+  # alias chains: a reference whose target is another reference denotes what that one denotes (union-find links,
+  # as left behind by earlier unifications); the type is the same, every chain-following path is exercised
+  while r is not None and r.random() < 0.25:
+    x = ra.TypeReference(x)
+  return x
+
+
+def build_ref_plain(ra, t, r=None):
   if isinstance(t, str):
     return ra.TypeReference(t)
   if t[0] == 'list':
